@@ -132,6 +132,13 @@ HARNESSES += [
       "every buffer of length <= 9 x every escape-free ASCII key of length <= 2 x every E", stubs=[CUT_SYNTAX, M_WS, M_ONE, M_KEY, CUT_PIT], timeout=2400, tier="thorough"),
     H("m_array_elem_lazy_n7", "main", ["C12", "C14"], ["Parser::parse_array_elem_lazy (check = true)", "Parser::skip_space_peek"],
       "every buffer of length <= 7 x every start index x first in {true,false} x every E", stubs=[CUT_SYNTAX, M_WS, M_ONE]),
+    H("m_entry_lazy_n9", "main", ["C12", "C14"], ["Parser::parse_entry_lazy (check = true)", "Parser::parse_object_clo"],
+      "every buffer of length <= 9 x every start index x first in {true,false} x every E; escape-free keys",
+      stubs=[CUT_SYNTAX, M_WS, M_ONE, "contract model: Parser::parse_str -> borrowed span, escape-free keys only (justified by u_parse_string_raw_borrowed_n8)"], timeout=1500),
+    H("m_get_array_unchecked_n8", "main", ["C10"], ["Parser::get_from_array (unchecked index walker)"],
+      "every well-formed JSON text of length <= 8 whose value is an array x index 0..=2 (full value grammar, no abstraction)",
+      stubs=[CUT_SYNTAX, M_WS, CUT_PIT, "contract models: skip_container (u_skip_container_tail_n8), skip_string_unchecked2 (u_skip_string_unchecked_n8), get_next_token (u_get_next_token_n6), skip_one on well-formed input -> full value grammar"],
+      timeout=1800, exp_gb=6),
     H("u_parser_error_clamp_n6", "main", ["C20", "C01"], ["Parser::error", "Parser::error_index"],
       "every buffer of length <= 6 x every reader index x every recorded error index (usize)", stubs=[CUT_SYNTAX]),
     H("u_parser_error_clamp_padded_n6", "main", ["C20", "C01"], ["Parser::error (PaddedSliceRead)", "PaddedSliceRead::{index,set_index,as_u8_slice}"],
@@ -213,6 +220,10 @@ HARNESSES += [
       "40-byte buffer: neutral 'x' except a 10-byte symbolic window at 27..37 and a closing quote at 38; well-formed literals only",
       stubs=[CUT_SYNTAX], timeout=1500, exp_gb=6,
       unwindset=[("ref_string_end", None, 50), ("ref_has_backslash", None, 50), ("windowed", None, 12), ("::skip_string_unchecked", -1, 16)]),
+    H("b_skip_space_cache_w2", "main", ["C02", "C10", "C14", "C01"], ["Parser::skip_space (64-byte block path, non-space bitmap cache fast path)", "util::arch::fallback::get_nonspace_bits"],
+      "80-byte buffer: two leading whitespace bytes, a 10-byte symbolic window at 2..12, neutral 'x' elsewhere; three consecutive calls",
+      timeout=1500, exp_gb=6,
+      unwindset=[("get_nonspace_bits", None, 66), ("ref_skip_ws", None, 16), ("windowed", None, 12), ("::skip_space", -1, 16), ("b_skip_space_cache_w2", None, 5)]),
     H("b_skip_number_w30", "main", ["C02", "C14", "C08", "C01"], ["Parser::do_skip_number (32-byte block path, is_float carry, exponent inside a block)", "i8x32::{gt,bitmask}"],
       "66-byte buffer of digits with a 6-byte symbolic window at 30..36 (lanes 28..31 of the first chunk and 0..1 of the next) and a comma at 44",
       stubs=[CUT_SYNTAX], timeout=1800, exp_gb=8, mem_gb=20,
